@@ -12,7 +12,8 @@ RULE = ("G1/G2 points k*G for k in {0 (infinity), 1, 2, r-1, random 256-bit}, Fr
         "negative ints}, lists of 0..3 pairs for PAIRING_CHECK. Oracle: laws checked through the interpreter against "
         "scalar arithmetic mod r and an own serialisation of k*G from py_ecc coordinates: aG+bG=(a+b)G, P+0=P, "
         "P+(-P)=0, NEG(aG)=(r-a)G, MUL(aG,s)=(as)G, associativity, distributivity, Fr ADD/MUL/NEG/INT mod r, "
-        "MUL nat/int x fr; point encodings round-trip incl. infinity; PAIRING_CHECK [(aG1,bG2),(-abG1,G2)] true, "
+        "MUL nat/int x fr; point encodings round-trip incl. infinity; PAIRING_CHECK [(aG1,bG2),(-abG1,G2)] true (lists with a repeated pair included; every list is checked twice in "
+        "the same process), "
         "perturbed lists false, empty list true. Non-trivial: infinity or scalar 0/r-1 occurs, or the case is a "
         "pairing. Distinct = distinct case.")
 
@@ -121,11 +122,14 @@ def oracle(case):
         lt = rv.T("list", rv.T("pair", G1T, G2T))
         pairs = [(x, y) for x, y in case["pairs"]]
         lit = [{"prim": "Pair", "args": [{"bytes": g1(x).hex()}, {"bytes": g2(y).hex()}]} for x, y in pairs]
-        ty, v = _run([interp.push(lt, lit), {"prim": "PAIRING_CHECK"}], case, "PAIRING_CHECK")
         want = sum(x * y for x, y in pairs) % R == 0
-        if ty != rv.T("bool") or v != {"prim": "True" if want else "False"}:
-            raise Violation("PAIRING_CHECK %s = %s, expected %s" % ([(x % R, y % R) for x, y in pairs], v, want), case,
-                            "pairing:%s" % ("inf" if any(x % R == 0 or y % R == 0 for x, y in pairs) else str(want)))
+        for attempt in (1, 2):  # the verdict is a function of the list: asking again in the same process gives it again
+            ty, v = _run([interp.push(lt, lit), {"prim": "PAIRING_CHECK"}], case, "PAIRING_CHECK")
+            if ty != rv.T("bool") or v != {"prim": "True" if want else "False"}:
+                raise Violation("PAIRING_CHECK %s = %s (execution #%d in this process), expected %s" % (
+                    [(x % R, y % R) for x, y in pairs], v, attempt, want), case,
+                    "pairing:%s%s" % ("inf" if any(x % R == 0 or y % R == 0 for x, y in pairs) else str(want),
+                                      ":repeated-execution" if attempt == 2 else ""))
     return True
 
 
@@ -155,7 +159,7 @@ def cases(draw, pairings):
     if m == "fr":
         case["a"], case["b"] = draw(scal()), draw(st.one_of(scal(), st.integers(-50, 50), st.integers(-R, R)))
     if m == "pairing":
-        kind = draw(st.sampled_from(["balanced", "perturbed", "empty", "single-inf", "random", "three"]))
+        kind = draw(st.sampled_from(["balanced", "perturbed", "empty", "single-inf", "random", "three", "repeated", "repeated"]))
         a, b = draw(st.integers(1, 20)), draw(st.integers(1, 20))
         if kind == "balanced":
             pairs = [[a, b], [R - (a * b) % R, 1]]
@@ -165,6 +169,8 @@ def cases(draw, pairings):
             pairs = []
         elif kind == "single-inf":
             pairs = [[0, b]] if draw(st.booleans()) else [[a, 0]]
+        elif kind == "repeated":  # the same pair twice in one list: e(aG1,bG2)^2 * e(-2ab G1, G2) = 1, or off by one factor
+            pairs = [[a, b], [a, b], [R - (2 * a * b) % R if draw(st.booleans()) else R - (a * b) % R, 1]]
         elif kind == "random":
             pairs = [[draw(st.integers(0, 6)), draw(st.integers(0, 6))] for _ in range(draw(st.integers(1, 2)))]
         else:  # three pairs: a*b + c*1 + (-(ab+c))*1 = 0
@@ -186,4 +192,4 @@ def run(h):
     sh = 8 if h.quick else 16
     h.run_given(lambda: cases(False), _prop, h.n(40, 1500), shards=sh, name="laws", shrink=False)
     h.run_given(lambda: st.builds(lambda c: dict(c, mode="pairing") if c["mode"] == "pairing" else c, cases(True)).filter(
-        lambda c: c["mode"] == "pairing"), _prop, h.n(2, 30), shards=sh, name="pairings", shrink=False)
+        lambda c: c["mode"] == "pairing"), _prop, h.n(2, 30), shards=16, name="pairings", shrink=False)
